@@ -524,6 +524,40 @@ func runFF(r *Result, thorough bool, prop string) {
 				}
 				victim.store.Close()
 			}
+			// a node that has already *seen* the genuine signatures (a first response refused only because
+			// of its frame) is offered the same signatures over another body: whatever the node remembers
+			// about verified signatures must not outlive the body they were verified against
+			for _, t := range ffTampers {
+				var b2 hg.Block
+				var f2 hg.Frame
+				jsonCopy(blk0, &b2)
+				jsonCopy(frm0, &f2)
+				t.f(&b2, &f2, src, cl, rng)
+				bh1, _ := blk0.Body.Hash()
+				bh2, _ := b2.Body.Hash()
+				if bytes.Equal(bh1, bh2) || len(b2.Signatures) != len(blk0.Signatures) {
+					continue // only tamperings of the block body that keep the signature map
+				}
+				victim := freshVictim()
+				var b1 hg.Block
+				var f1 hg.Frame
+				jsonCopy(blk0, &b1)
+				jsonCopy(frm0, &f1)
+				f1.Timestamp++ // genuine block, frame no longer hashes to it: refused after the signatures were checked
+				if cls, _ := guarded(func() error { return victim.core.FastForward(&b1, &f1) }); cls == "ok" {
+					victim.store.Close()
+					continue
+				}
+				before := victim.digest()
+				cls, det := guarded(func() error { return victim.core.FastForward(&b2, &f2) })
+				r.Inc("ff_replayed_signatures_after_a_refused_response_"+cls, 1)
+				if cls == "ok" {
+					r.Violate("impl-violation", fmt.Sprintf("after refusing a response with the genuine block, the node adopted a tampered block (%s) carrying the same signatures", t.name), "primed-replayed-signatures:"+t.name, map[string]string{"tamper": t.name})
+				} else if after := victim.digest(); after != before {
+					r.Violate("impl-violation", fmt.Sprintf("a refused tampered block (%s: %s) changed the node", t.name, det), "primed-refused-not-noop:"+t.name, map[string]string{"tamper": t.name})
+				}
+				victim.store.Close()
+			}
 			// D9: the real Node.fastForward in front of a hostile serving peer
 			nodeLevelFF(r, rng, cl, blk0, frm0, src)
 		} else {
